@@ -828,3 +828,210 @@ Proof.
   destruct (c_intx cn && _); [apply Pass; exact H|].
   eapply bnormal_blk_db; exact H.
 Qed.
+
+(** ================= wake-ups ================= *)
+Definition BR (b : blocking) : Prop := forall c st, zlookup c (b_blk b) = Some st -> 0 <= bl_db st < 16.
+
+Lemma cinv_set_db_direct s dbi d' : cinv s -> ALLd d' -> cinv (set_db s dbi d').
+Proof. intros CI HA. eapply cinv_set_db; eauto; reflexivity. Qed.
+
+Lemma wake_client_cons s b u W :
+  agreeW b (u :: W) -> cinv s -> BR b ->
+  b_crashed (snd (wake_client s b u)) = b_crashed b /\ cinv (fst (wake_client s b u)) /\
+  ((b_out (snd (wake_client s b u)) = b_out b /\ b_blk (snd (wake_client s b u)) = b_blk b /\ delta s (fst (wake_client s b u)) [] [])
+   \/ (exists st v, zlookup (u_conn u) (b_blk b) = Some st /\
+         b_out (snd (wake_client s b u)) = (u_conn u, FArray [FBulk (u_key u); FBulk v]) :: b_out b /\
+         b_blk (snd (wake_client s b u)) = zremove (u_conn u) (b_blk b) /\
+         delta s (fst (wake_client s b u)) [] [(bl_db st, u_key u, v)])).
+Proof.
+  intros HA CI HB.
+  destruct HA as (_ & A2 & _). destruct (A2 u (or_introl eq_refl)) as (st & U1 & U2 & _). cbn [with_wake b_blk] in U1.
+  pose proof (HB _ _ U1) as Hr. rewrite <- U2 in Hr.
+  unfold wake_client.
+  pose proof (on_key_pop_delta (u_left u) (get_db s (u_db u)) (u_key u) (u_db u) (ci_all s CI (u_db u))) as Hp. cbv zeta in Hp.
+  destruct (on_key (get_db s (u_db u)) (u_key u) (e_pop (u_left u))) as [r d']. cbn [fst snd] in Hp. destruct Hp as (P1 & P2 & P3).
+  destruct r; try contradiction; rewrite U1; cbn [fst snd].
+  - (* an element: delivered *)
+    split; [reflexivity|]. split; [apply cinv_set_db_direct; assumption|]. right. exists st, b0.
+    split; [first [exact U1|reflexivity]|]. split; [reflexivity|]. split; [reflexivity|].
+    rewrite <- U2.
+    apply (delta_one_db s (set_db s (u_db u) d') (u_db u) d' [] [(u_db u, u_key u, b0)] (ci_len s CI) Hr eq_refl (in_db_nil _)).
+    + intros e0 [<-|[]]. reflexivity.
+    + intros k x. rewrite ecount_nil, P3. lia.
+  - (* nothing there: registered again *)
+    split; [reflexivity|]. split; [apply cinv_set_db_direct; assumption|]. left.
+    split; [reflexivity|]. split; [reflexivity|].
+    apply (delta_one_db s (set_db s (u_db u) d') (u_db u) d' [] [] (ci_len s CI) Hr eq_refl (in_db_nil _) (in_db_nil _)).
+    intros k x. specialize (P3 k x). rewrite ecount_nil in *. lia.
+Qed.
+
+Lemma async_returns_app b l1 l2 : async_returns b (l1 ++ l2) = async_returns b l1 ++ async_returns b l2.
+Proof.
+  unfold async_returns. induction l1 as [|a l1 IH]; [reflexivity|]. cbn [app flat_map]. rewrite IH, app_assoc. reflexivity.
+Qed.
+Lemma async_returns_blk b b1 new :
+  (forall c f, In (c, f) new -> zlookup c (b_blk b1) = zlookup c (b_blk b)) -> async_returns b1 new = async_returns b new.
+Proof.
+  intros H. unfold async_returns. induction new as [|[c f] new IH]; [reflexivity|]. cbn [flat_map fst snd].
+  assert (H2 : forall c2 f2, In (c2, f2) new -> zlookup c2 (b_blk b1) = zlookup c2 (b_blk b))
+    by (intros c2 f2 Hin; apply (H c2 f2); right; exact Hin).
+  rewrite (H c f (or_introl eq_refl)), (IH H2). reflexivity.
+Qed.
+
+Lemma wake_fold_cons : forall l s b,
+  agreeW b (l ++ b_wake b) -> b_crashed b = false -> cinv s -> BR b ->
+  b_crashed (snd (fold_left wake_step l (s, b))) = false /\ cinv (fst (fold_left wake_step l (s, b))) /\
+  BR (snd (fold_left wake_step l (s, b))) /\
+  exists new, b_out (snd (fold_left wake_step l (s, b))) = rev new ++ b_out b
+    /\ delta s (fst (fold_left wake_step l (s, b))) [] (async_returns b new)
+    /\ (forall c f, In (c, f) new -> In c (map u_conn l)).
+Proof.
+  induction l as [|u l IH]; intros s b HA Hc CI HB; cbn [fold_left fst snd].
+  - split; [exact Hc|]. split; [exact CI|]. split; [exact HB|]. exists []. split; [reflexivity|]. split; [apply delta_same; reflexivity|intros c f []].
+  - rewrite wake_step_eq, Hc. cbn [app] in HA.
+    pose proof (agree_wake_client s b u (l ++ b_wake b) HA) as Hnext. rewrite <- (wake_client_wake s b u) in Hnext.
+    destruct (wake_client_cons s b u (l ++ b_wake b) HA CI HB) as (W1 & W2 & W3).
+    assert (Hnd : ~ In (u_conn u) (map u_conn l)).
+    { destruct HA as (_ & _ & A3 & _). unfold wakes_unique in A3. cbn [with_wake b_wake map] in A3.
+      inversion A3; subst. intros Hin. apply H1. rewrite map_app. apply in_or_app. left. exact Hin. }
+    destruct (wake_client s b u) as [s1 b1]. cbn [fst snd] in *.
+    rewrite Hc in W1. destruct Hnext as [Hx|Hnext]; [congruence|].
+    assert (HB1 : BR b1).
+    { destruct W3 as [(_ & O2 & _)|(st & v & _ & _ & O4 & _)]; intros c st0 Hl.
+      - rewrite O2 in Hl. eapply HB; exact Hl.
+      - rewrite O4 in Hl. apply zlookup_zremove_some in Hl. eapply HB; exact Hl. }
+    destruct (IH s1 b1 Hnext W1 W2 HB1) as (I1 & I2 & I3 & new & I4 & I5 & I6).
+    split; [exact I1|]. split; [exact I2|]. split; [exact I3|].
+    destruct W3 as [(O1 & O2 & O3)|(st & v & O1 & O3 & O4 & O5)].
+    + exists new. rewrite I4, O1. split; [reflexivity|]. split.
+      * rewrite <- (async_returns_blk b b1 new) by (intros c f _; rewrite O2; reflexivity).
+        intros db k x Hd. specialize (O3 db k x Hd). specialize (I5 db k x Hd). rewrite ecount_nil in O3. lia.
+      * intros c f Hin. right. eapply I6; exact Hin.
+    + exists ((u_conn u, FArray [FBulk (u_key u); FBulk v]) :: new). rewrite I4, O3.
+      split; [cbn [rev]; rewrite <- app_assoc; reflexivity|]. split.
+      * change ((u_conn u, FArray [FBulk (u_key u); FBulk v]) :: new) with ([(u_conn u, FArray [FBulk (u_key u); FBulk v])] ++ new).
+        rewrite async_returns_app.
+        assert (E1 : async_returns b [(u_conn u, FArray [FBulk (u_key u); FBulk v])] = [(bl_db st, u_key u, v)]).
+        { unfold async_returns. cbn [flat_map fst snd]. rewrite O1. reflexivity. }
+        rewrite E1. rewrite <- (async_returns_blk b b1 new).
+        -- intros db k x Hd. specialize (O5 db k x Hd). specialize (I5 db k x Hd). rewrite ecount_app. rewrite ecount_nil in *. lia.
+        -- intros c f Hin. rewrite O4. apply zlookup_zremove_other. intros E. subst c. apply Hnd. eapply I6; exact Hin.
+      * intros c f [Hin|Hin]; [injection Hin as <- _; left; reflexivity|right; eapply I6; exact Hin].
+Qed.
+
+(** ================= conservation over all list-command histories ================= *)
+Lemma new_out_spec b b' new : b_out b' = rev new ++ b_out b -> new_out b b' = new.
+Proof.
+  intros H. unfold new_out. rewrite H, app_length. replace (length (rev new) + length (b_out b) - length (b_out b))%nat with (length (rev new)) by lia.
+  rewrite firstn_app, Nat.sub_diag, firstn_all. cbn [firstn]. rewrite app_nil_r. apply rev_involutive.
+Qed.
+Lemma get_db_init pw db : get_db (init_server pw) db = empty_db.
+Proof.
+  unfold get_db, init_server. cbn [s_dbs]. generalize (Z.to_nat db). intros n.
+  do 17 (destruct n as [|n]; [reflexivity|]). reflexivity.
+Qed.
+Lemma cinv_init : cinv (init_server None).
+Proof.
+  constructor; try reflexivity.
+  - intros db k. rewrite get_db_init. discriminate.
+  - intros c cn H. discriminate.
+  - intros c cn H. discriminate.
+Qed.
+
+Definition ginv (st : sys) (P R : list elem) : Prop :=
+  reach None st /\ b_crashed (snd st) = false /\ cinv (fst st) /\ BR (snd st) /\
+  forall db k x, 0 <= db -> ecount (db, k, x) P = ecount (db, k, x) R + occ x (list_at (fst st) db k).
+
+Lemma ok_cons_ok st e : ok_cons st e = true -> ok st e = true.
+Proof. unfold ok_cons. intros H. apply andb_true_iff in H. tauto. Qed.
+
+Lemma ginv_step st P R e : ginv st P R -> ok_cons st e = true ->
+  ginv (step st e) (P ++ pushed_in st e) (R ++ returned_in st e).
+Proof.
+  intros (HR & Hc & CI & HB & HE) Hok. pose proof (ok_cons_ok _ _ Hok) as Hok1.
+  assert (HR' : reach None (step st e)) by (apply reach_step; assumption).
+  destruct st as [s b]. cbn [fst snd] in *.
+  destruct (reach_inv None _ HR) as [Hi|(HA & Q & H0)]; [cbn [snd] in Hi; congruence|]. cbn [fst snd] in *.
+  unfold ginv. split; [exact HR'|]. clear HR'.
+  assert (Fin : forall s' b', b_crashed b' = false -> cinv s' -> BR b' ->
+            delta s s' (pushed_in (s, b) e) (returned_in (s, b) e) ->
+            step (s, b) e = (s', b') ->
+            b_crashed (snd (step (s, b) e)) = false /\ cinv (fst (step (s, b) e)) /\ BR (snd (step (s, b) e)) /\
+            forall db k x, 0 <= db -> ecount (db, k, x) (P ++ pushed_in (s, b) e)
+                                      = ecount (db, k, x) (R ++ returned_in (s, b) e) + occ x (list_at (fst (step (s, b) e)) db k)).
+  { intros s' b' F1 F2 F3 F4 F5. rewrite F5. cbn [fst snd]. split; [exact F1|]. split; [exact F2|]. split; [exact F3|].
+    intros db k x Hd. rewrite !ecount_app. specialize (F4 db k x Hd). specialize (HE db k x Hd). lia. }
+  unfold ok_cons in Hok. apply andb_true_iff in Hok. destruct Hok as [_ Hok2].
+  destruct e as [now c f oms| |now|c|c].
+  - (* a request *)
+    cbn [ok] in Hok1. destruct (zlookup c (s_conns s)) as [cn|] eqn:Hcn; [|discriminate].
+    apply andb_true_iff in Hok1. destruct Hok1 as [Hok1 Hq]. apply andb_true_iff in Hok1. destruct Hok1 as [Hnb Hg].
+    apply negb_true_iff in Hnb, Hg. apply is_blocked_false in Hnb.
+    destruct (bprocess_frame now s b c f None oms) as [[rep s'] b1] eqn:E.
+    destruct (bprocess_frame_inv _ _ _ _ _ _ _ _ _ _ _ HA Q H0 Hcn Hnb Hg E) as (G1 & G2 & G3 & G4 & G5 & G6).
+    destruct (bprocess_frame_delta _ _ _ _ _ _ _ _ _ _ CI Hcn Hok2 E) as (D1 & D2).
+    pose proof (bprocess_frame_blk_db _ _ _ _ _ _ _ _ _ _ _ Hcn E) as D3.
+    apply (Fin s' (match rep with FNoResponse => b1 | _ => emit b1 c rep end)).
+    + destruct rep; exact (eq_trans G4 Hc).
+    + exact D1.
+    + intros c' st' Hl. assert (Hl' : zlookup c' (b_blk b1) = Some st') by (destruct rep; exact Hl).
+      destruct (D3 c' st' Hl') as [Ho|Ho]; [eapply HB; exact Ho|rewrite Ho; exact (ci_db s CI c cn Hcn)].
+    + unfold pushed_in, returned_in, reply_at. cbn [fst snd]. rewrite E. cbn [fst]. exact D2.
+    + cbn [step]. rewrite Hc. unfold frame_step. rewrite E. reflexivity.
+  - (* wake-ups *)
+    assert (HA' : agreeW (with_wake b (skipn 32 (b_wake b))) (firstn 32 (b_wake b) ++ b_wake (with_wake b (skipn 32 (b_wake b))))).
+    { cbn [with_wake b_wake]. unfold agreeW. rewrite firstn_skipn. apply agreeW_self in HA. unfold agreeW in HA. destruct b; exact HA. }
+    destruct (wake_fold_cons (firstn 32 (b_wake b)) s (with_wake b (skipn 32 (b_wake b))) HA' Hc CI HB) as (W1 & W2 & W3 & new & W4 & W5 & _).
+    cbn [with_wake b_out] in W4.
+    destruct (fold_left wake_step (firstn 32 (b_wake b)) (s, with_wake b (skipn 32 (b_wake b)))) as [s' b'] eqn:Ef. cbn [fst snd] in *.
+    assert (Hstep : step (s, b) EWakeups = (s', b')) by (cbn [step]; rewrite Hc; unfold process_wakeups; exact Ef).
+    apply (Fin s' b'); try assumption.
+    unfold pushed_in, returned_in. rewrite Hstep. cbn [fst snd]. rewrite (new_out_spec b b' new W4).
+    rewrite (async_returns_blk (with_wake b (skipn 32 (b_wake b))) b new) by reflexivity. exact W5.
+  - (* timeouts *)
+    destruct (expire_reg now (b_reg b)) as [ex r'] eqn:Ee.
+    destruct (timeout_fold ex (with_reg b r')) as (_ & _ & T3 & T4). cbn [with_reg b_crashed b_blk] in T3, T4.
+    apply (Fin s (process_timeouts now b)).
+    + unfold process_timeouts. rewrite Ee. congruence.
+    + exact CI.
+    + intros c' st' Hl. unfold process_timeouts in Hl. rewrite Ee, T4 in Hl. destruct (existsb _ ex); [discriminate|]. eapply HB; exact Hl.
+    + apply delta_same. reflexivity.
+    + cbn [step]. rewrite Hc. reflexivity.
+  - (* connect *)
+    apply (Fin (connect s c) b); try assumption.
+    + destruct CI as [C1 C2 C3 C4 C5]. unfold connect. constructor; cbn [set_conn s_dbs s_conns s_password]; try assumption.
+      * intros c' cn'. destruct (Z.eq_dec c' c) as [->|Hne]; [rewrite zlookup_zset_same; intros E; injection E as <-; cbn; lia|].
+        rewrite zlookup_zset_other by exact Hne. apply C3.
+      * intros c' cn'. destruct (Z.eq_dec c' c) as [->|Hne]; [rewrite zlookup_zset_same; intros E; injection E as <-; reflexivity|].
+        rewrite zlookup_zset_other by exact Hne. apply C5.
+    + apply delta_same. reflexivity.
+    + cbn [step]. rewrite Hc. reflexivity.
+  - (* disconnect (of a connection that is not blocked) *)
+    apply (Fin (del_conn s c) (if is_blocked b c then with_dead b (c :: b_dead b) else b)).
+    + destruct (is_blocked b c); exact Hc.
+    + destruct CI as [C1 C2 C3 C4 C5]. constructor; cbn [del_conn s_dbs s_conns s_password]; try assumption.
+      * intros c' cn' Hl. apply zlookup_zremove_some in Hl. eapply C3; exact Hl.
+      * intros c' cn' Hl. apply zlookup_zremove_some in Hl. eapply C5; exact Hl.
+    + destruct (is_blocked b c); exact HB.
+    + apply delta_same. reflexivity.
+    + cbn [step]. rewrite Hc. reflexivity.
+Qed.
+
+Theorem reach_g_ginv st P R : reach_g st P R -> ginv st P R.
+Proof.
+  induction 1.
+  - split; [constructor|]. split; [reflexivity|]. split; [exact cinv_init|]. split; [intros c st H; discriminate|].
+    intros db k x _. cbn [fst]. rewrite list_at_lst, get_db_init. reflexivity.
+  - apply ginv_step; assumption.
+Qed.
+
+(** the multiset equation, per list: pushed = returned + remaining *)
+Theorem conservation st P R : reach_g st P R ->
+  forall db k x, 0 <= db -> ecount (db, k, x) P = ecount (db, k, x) R + occ x (list_at (fst st) db k).
+Proof. intros H. destruct (reach_g_ginv _ _ _ H) as (_ & _ & _ & _ & HE). exact HE. Qed.
+(** no element is returned more often than it was pushed *)
+Theorem no_duplicate st P R : reach_g st P R -> forall db k x, 0 <= db -> ecount (db, k, x) R <= ecount (db, k, x) P.
+Proof. intros H db k x Hd. rewrite (conservation _ _ _ H db k x Hd). pose proof (occ_nonneg x (list_at (fst st) db k)). lia. Qed.
+(** the event loop does not end; every stored value is a list *)
+Theorem no_crash st P R : reach_g st P R -> b_crashed (snd st) = false.
+Proof. intros H. destruct (reach_g_ginv _ _ _ H) as (_ & Hc & _). exact Hc. Qed.
